@@ -356,22 +356,36 @@ func (c *pkgCtx) rewriteMain(f *ast.File) {
 				return e
 			}
 			sel, ok := call.Fun.(*ast.SelectorExpr)
-			if !ok || (sel.Sel.Name != "Run" && sel.Sel.Name != "RunTLS" && sel.Sel.Name != "RunUnix") {
+			if !ok {
 				return e
+			}
+			// http.ListenAndServe(addr, handler) / http.ListenAndServeTLS(addr, cert, key, handler)
+			if c.pkgOf(sel.X) == "net/http" && (sel.Sel.Name == "ListenAndServe" || sel.Sel.Name == "ListenAndServeTLS") && len(call.Args) >= 2 {
+				found++
+				return &ast.CallExpr{Fun: ast.NewIdent("zzVerifServe"), Args: []ast.Expr{call.Args[len(call.Args)-1]}}
 			}
 			tv, ok := c.info.Types[sel.X]
-			if !ok || !strings.HasSuffix(tv.Type.String(), "gin.Engine") {
+			if !ok {
 				return e
 			}
-			found++
-			return &ast.CallExpr{Fun: ast.NewIdent("zzVerifRun"), Args: []ast.Expr{sel.X}}
+			ts := tv.Type.String()
+			switch {
+			case strings.HasSuffix(ts, "gin.Engine") && (sel.Sel.Name == "Run" || sel.Sel.Name == "RunTLS" || sel.Sel.Name == "RunUnix"):
+				found++
+				return &ast.CallExpr{Fun: ast.NewIdent("zzVerifRun"), Args: []ast.Expr{sel.X}}
+			case strings.HasSuffix(ts, "net/http.Server") && (sel.Sel.Name == "ListenAndServe" || sel.Sel.Name == "ListenAndServeTLS" || sel.Sel.Name == "Serve" || sel.Sel.Name == "ServeTLS"):
+				// an explicit http.Server: its Handler is what serves
+				found++
+				return &ast.CallExpr{Fun: ast.NewIdent("zzVerifServe"), Args: []ast.Expr{&ast.SelectorExpr{X: sel.X, Sel: ast.NewIdent("Handler")}}}
+			}
+			return e
 		})
 		if found == 0 {
 			if os.Getenv("DST_SELFTEST_NOMAIN") != "" {
 				fd.Name = ast.NewIdent("main") // instrumenter self-test: a plain program without an engine
 				return
 			}
-			fail("%s: main() has no (*gin.Engine).Run call to hand over to the simulator", c.relFile)
+			fail("%s: main() has no (*gin.Engine).Run / http.ListenAndServe / (*http.Server).ListenAndServe call to hand over to the simulator", c.relFile)
 		}
 		return
 	}
